@@ -176,6 +176,12 @@ pub enum CardExpect {
     Any,
 }
 
+/// The commands the claimed properties speak about (registration, identity, reservation, the two
+/// reversals / the pending query, end-of-day, card reading, initialisation, set-terminal-id).
+pub fn modelled_command(cf: (u8, u8)) -> bool {
+    matches!(cf, (0x06, 0x00) | (0x0f, 0xa1) | (0x06, 0x22) | (0x06, 0x23) | (0x06, 0x25) | (0x06, 0x50) | (0x06, 0xc0) | (0x06, 0x93) | (0x06, 0x1b) | (0x06, 0x01))
+}
+
 pub fn card_expect(kind: &CardKind) -> CardExpect {
     match kind {
         CardKind::Abort(0x6c) => CardExpect::NoCard,
@@ -286,7 +292,9 @@ pub fn judge_fault_free(plan: &ClientPlan, run: &ClientRun) -> Judged {
     for o in recs {
         let i = o.index as usize;
         let op = &plan.ops[i];
-        let reqs = run.requests_of(o.index);
+        // only the commands the properties speak about are judged: an additional harmless exchange (a status
+        // enquiry, a diagnosis ...) before, between or behind them is not pinned by any property
+        let reqs: Vec<ReqLog> = run.requests_of(o.index).into_iter().filter(|r| modelled_command((r.frame[0], r.frame[1]))).collect();
         let traffic = log.entries[o.log_from.min(log.entries.len())..o.log_to.min(log.entries.len())]
             .iter()
             .any(is_traffic);
@@ -317,6 +325,13 @@ pub fn judge_fault_free(plan: &ClientPlan, run: &ClientRun) -> Judged {
                 // exactly one Reservation, and nothing that closes or books anything else (other, harmless
                 // commands - a status enquiry, say - are none of this property's business)
                 let n_res = pk.iter().filter(|p| p.cf == (0x06, 0x22)).count();
+                if n_res == 0 && pk.is_empty() && !traffic && matches!(o.result, OpResult::Err { .. }) {
+                    // refused on the client's own grounds (an argument it does not take, say) without a byte
+                    // to the terminal: the two guards of the statement are necessary for success, nothing
+                    // says they are sufficient - the token is simply not open
+                    j.stats.hit("probe.begin_refused_on_other_grounds");
+                    continue;
+                }
                 if n_res != 1 || pk.iter().any(|p| matches!(p.cf, (0x06, 0x23) | (0x06, 0x25) | (0x06, 0x50) | (0x06, 0x01))) {
                     j.fail("C07", "begin_request", "begin", format!("accepted begin must send exactly one Reservation, sent {:?}", pk.iter().map(|p| p.cf).collect::<Vec<_>>()));
                     // whatever was sent: an abort the terminal delivered for the last reservation of the
@@ -438,7 +453,7 @@ pub fn judge_fault_free(plan: &ClientPlan, run: &ClientRun) -> Judged {
                     j.fail("C07", "reversal_receipt", name, format!("receipt {receipt} belongs to reference {:?} in the terminal's ledger, not to {token:?}", ledger_token));
                 }
                 // no reversal for anyone else's receipt in this call
-                let dangling: Vec<u16> = reqs.iter().filter_map(|r| r.dangling_reported).collect();
+                let dangling: Vec<u16> = reqs.iter().filter_map(|r| r.dangling_reported).chain(reqs.iter().flat_map(|r| r.listed_reported.iter().copied())).collect();
                 for q in pk.iter().skip(1) {
                     if q.cf == (0x06, 0x23) || q.cf == (0x06, 0x25) {
                         let raw = q.get(0x87).map(|v| v.to_vec());
@@ -824,7 +839,7 @@ pub fn judge_under_faults(plan: &ClientPlan, run: &ClientRun) -> Judged {
     for o in run.ops.iter().filter(|o| o.index >= 0) {
         let op = &plan.ops[o.index as usize];
         let name = op.name();
-        let reqs: Vec<&ReqLog> = all_reqs.iter().filter(|r| r.op == o.index).collect();
+        let reqs: Vec<&ReqLog> = all_reqs.iter().filter(|r| r.op == o.index && modelled_command((r.frame[0], r.frame[1]))).collect();
         // a connect attempt (even a refused one) is traffic towards the terminal, too
         let traffic = log.entries[o.log_from.min(log.entries.len())..o.log_to.min(log.entries.len())].iter().any(is_traffic)
             || run.connect_log.iter().any(|(seq, _)| o.log_from <= *seq && *seq < o.log_to);
@@ -889,7 +904,7 @@ pub fn judge_under_faults(plan: &ClientPlan, run: &ClientRun) -> Judged {
                 }
                 let tok = cp437(token).unwrap_or_default();
                 let mine = offered(&tok);
-                let dangling: Vec<u16> = reqs.iter().filter_map(|r| r.dangling_reported).collect();
+                let dangling: Vec<u16> = reqs.iter().filter_map(|r| r.dangling_reported).chain(reqs.iter().flat_map(|r| r.listed_reported.iter().copied())).collect();
                 let want_cf = if is_commit { (0x06, 0x23) } else { (0x06, 0x25) };
                 let mut own_receipts: Vec<u64> = vec![];
                 for p in pk.iter() {
@@ -957,13 +972,7 @@ pub fn judge_under_faults(plan: &ClientPlan, run: &ClientRun) -> Judged {
                 // that the terminal closed cleanly *between* two exchanges (nothing half-done anywhere),
                 // the client reconnects and the clean-up still runs to its end: end-of-day reaches the terminal
                 {
-                    // (a negative acknowledgement of a command - "busy, not now" - leaves nothing half-done
-                    // either: the command was not executed; it counts like the clean close)
-                    let fired_here: Vec<FaultKind> = all_fired
-                        .iter()
-                        .filter(|f| o.log_from <= f.seq && f.seq < o.log_to)
-                        .map(|f| if matches!(f.kind, FaultKind::Nack(_)) && f.at_ack && !matches!(f.during, (0x06, 0x00) | (0x0f, 0xa1)) { FaultKind::CloseIdle } else { f.kind })
-                        .collect();
+                    let fired_here: Vec<FaultKind> = all_fired.iter().filter(|f| o.log_from <= f.seq && f.seq < o.log_to).map(|f| f.kind).collect();
                     let cleanup = match op {
                         OpSpec::Commit { cleanup, .. } | OpSpec::Cancel { cleanup, .. } => cleanup,
                         _ => unreachable!(),
@@ -978,7 +987,7 @@ pub fn judge_under_faults(plan: &ClientPlan, run: &ClientRun) -> Judged {
                     {
                         j.stats.hit("probe.cleanup_after_idle_close");
                         if !reqs.iter().any(|r| r.pkt.as_ref().map(|p| p.cf == (0x06, 0x50)).unwrap_or(false)) {
-                            j.fail("C19", "cleanup_not_completed", name, format!("{name}({token:?}) was completed by the terminal and left nothing open; the only trouble was a connection closed between two exchanges / a command refused once with a negative acknowledgement, yet no end-of-day request reached the terminal (requests of this call: {:?})", pk.iter().map(|p| p.cf).collect::<Vec<_>>()));
+                            j.fail("C19", "cleanup_not_completed", name, format!("{name}({token:?}) was completed by the terminal and left nothing open; the connection was merely closed between two exchanges, yet no end-of-day request reached the terminal (requests of this call: {:?})", pk.iter().map(|p| p.cf).collect::<Vec<_>>()));
                         }
                     }
                 }
@@ -1013,20 +1022,6 @@ pub fn judge_under_faults(plan: &ClientPlan, run: &ClientRun) -> Judged {
                 } else if o.result.is_ok() {
                     j.stats.hit("probe.card_classified_after_retry");
                 }
-                // bounded liveness: when the only trouble of the whole run were connections the terminal
-                // closed cleanly between two exchanges, a card it presents is read after the reconnect
-                {
-                    let definite = matches!(want, CardExpect::Bank | CardExpect::Membership(_));
-                    let only_idle_closes = !all_fired.is_empty()
-                        && all_fired.iter().all(|f| f.kind == FaultKind::CloseIdle)
-                        && run.connect_log.iter().all(|(_, c)| matches!(c, crate::client::ConnectSpec::Ok));
-                    if definite && only_idle_closes {
-                        j.stats.hit("probe.card_after_idle_close");
-                        if !o.result.is_ok() {
-                            j.fail("C18", "card_lost_after_idle_close", "under_faults", format!("the connection was merely closed between two exchanges; the terminal presents {:?}, yet read_card returned {}", card.kind, o.result.class()));
-                        }
-                    }
-                }
                 // ... and a card the terminal did deliver is not lost: when the last read-card exchange
                 // of the call ran to its end (status information emitted, no fault on it), trouble in an
                 // earlier attempt of the same call is no reason to fail
@@ -1046,6 +1041,36 @@ pub fn judge_under_faults(plan: &ClientPlan, run: &ClientRun) -> Judged {
             h.str(t);
         }
         j.states.push(h.finish());
+    }
+    j
+}
+
+/// The one rule for runs in which the terminal registered with another currency than the configured
+/// one: every reservation, partial reversal and pre-authorisation reversal that does go out names the
+/// configured currency (C08). Whether the client serves such a terminal at all is its own business.
+pub fn judge_currency_only(plan: &ClientPlan, run: &ClientRun) -> Judged {
+    let mut j = Judged { v: vec![], states: vec![], stats: Stats::default() };
+    for o in &run.ops {
+        if let OpResult::Panic { loc, msg } = &o.result {
+            j.fail("*", "panic", panic_sig(loc, msg), format!("{} panicked at {loc}: {msg}", o.name));
+            return j;
+        }
+    }
+    let cur = plan.cfg.currency as u64;
+    let reqs: Vec<ReqLog> = run.pt.lock().unwrap().requests.clone();
+    for r in reqs.iter().filter(|r| r.op >= 0) {
+        if let Some(p) = r.pkt.as_ref() {
+            if matches!(p.cf, (0x06, 0x22) | (0x06, 0x23) | (0x06, 0x25)) && p.get(0x49).is_some() && p.get_bcd(0x49) != Some(cur) {
+                let (rule, sig) = match p.cf {
+                    (0x06, 0x22) => ("reservation_fields", "begin/currency"),
+                    (0x06, 0x23) => ("commit_fields", "commit/currency"),
+                    _ => ("cancel_fields", "cancel/currency"),
+                };
+                j.fail("C08", rule, sig, format!("request {} names currency {:?}; configured is {cur} (the terminal registered with {:?})", crate::conn::hex(&r.frame), p.get_bcd(0x49), plan.pt.registration_currency));
+                break;
+            }
+            j.stats.hit("probe.request_under_foreign_registration_currency");
+        }
     }
     j
 }
